@@ -449,6 +449,9 @@ func (rc *raftNode) startRaft(ds DataStorage, standalone bool) error {
 			rpeers = append(rpeers,
 				raft.Peer{ReplicaID: v.ReplicaID, NodeID: v.NodeID, Context: d})
 		}
+		// RaftPeers is a map: without a fixed order every replica would write the bootstrap
+		// conf change entries (index 1..n, term 1) in a different order into its own log.
+		sort.Slice(rpeers, func(i, j int) bool { return rpeers[i].ReplicaID < rpeers[j].ReplicaID })
 
 		isLearner := rc.config.nodeConfig.LearnerRole != ""
 		startPeers := rpeers
